@@ -368,4 +368,109 @@ Proof.
     replace (n + 1 - 1) with n by lia. replace (Z.to_nat (n + 1)) with (S (Z.to_nat n)) by lia. reflexivity.
   - cbn [bind]. rewrite push_rev. reflexivity.
 Qed.
+
+(* all the classes that do not involve signatures or the code position *)
+Definition plain (k : kind) : bool :=
+  match k with KChecksig _ | KMultisig _ | KCodesep => false | _ => true end.
+Lemma exec_sim_plain r k : small_state r -> plain k = true -> ref_kind OPC = k ->
+  sim1 (exec scriptIn (abs r pb) o k) (exec_op OPC rest r) pb.
+Proof.
+  intros (S1 & S2 & S3) P K. destruct k; try discriminate P.
+  - now apply sim_small. - now apply sim_bin. - now apply sim_un. - now apply sim_2drop. - now apply sim_2dup.
+  - now apply sim_2over. - now apply sim_2rot. - now apply sim_2swap. - now apply sim_3dup.
+  - now apply sim_depth. - now apply sim_drop. - now apply sim_dup. - now apply sim_else. - now apply sim_endif.
+  - now apply sim_equal. - now apply sim_equalverify. - now apply sim_fromalt.
+  - apply sim_hashes; auto. - apply sim_hashes; auto.
+  - now apply sim_if. - now apply sim_ifdup. - now apply sim_nip. - now apply sim_nop. - now apply sim_nopn.
+  - now apply sim_over. - now apply sim_pickroll. - now apply sim_return. - apply sim_hashes; auto.
+  - now apply sim_rot. - now apply sim_size. - apply sim_hashes; auto. - apply sim_hashes; auto.
+  - now apply sim_swap. - now apply sim_toalt. - now apply sim_tuck. - now apply sim_verify. - now apply sim_within.
+  - now apply sim_bad.
+Qed.
+(* CODESEPARATOR only moves the code position *)
+Lemma sim_codesep r : ref_kind OPC = KCodesep ->
+  exec scriptIn (abs r pb) o KCodesep = Ok (abs r (sop_idx o)) /\
+  exec_op OPC rest r = Some {| r_stack := r_stack r; r_alt := r_alt r; r_vf := r_vf r; r_sub := rest; r_nop := r_nop r |}.
+Proof. intros K. unfold exec_op. rewrite K. split; reflexivity. Qed.
+
+(* ---------- sizes stay small (so bn2vch / CScript([x]) never hit struct.pack's range) ---------- *)
+Hypothesis hash_small : forall x, small (ripemd160 x) /\ small (sha1 x) /\ small (sha256 x).
+
+Lemma small_enc v : Z.abs v < 2^62 -> small (ref_enc v).
+Proof. intros H. unfold small. pose proof (num_enc_len v H). unfold ref_enc. lia. Qed.
+Lemma small_of_bool b : small (of_bool b).
+Proof. destruct b; unfold small; cbn; lia. Qed.
+Lemma Forall_firstn {A} (P : A -> Prop) n l : Forall P l -> Forall P (firstn n l).
+Proof. revert l; induction n; intros [|x l] H; cbn; auto. inversion H; subst. constructor; auto. Qed.
+Lemma Forall_skipn {A} (P : A -> Prop) n l : Forall P l -> Forall P (skipn n l).
+Proof. revert l; induction n; intros [|x l] H; cbn; auto. inversion H; subst. auto. Qed.
+Lemma Forall_nth {A} (P : A -> Prop) n l x : Forall P l -> nth_error l n = Some x -> P x.
+Proof. intros H E. rewrite Forall_forall in H. apply H. eapply nth_error_In; exact E. Qed.
+
+Lemma un_arith_bound op x v : un_arith op x = Some v -> Z.abs x < 2^31 -> Z.abs v < 2^62.
+Proof.
+  unfold un_arith. intros E B.
+  repeat match type of E with context [match ?c with _ => _ end] => destruct c; try discriminate E end;
+    injection E as <-; try lia; destruct (x =? 0); simpl; lia.
+Qed.
+Lemma bin_arith_bound op x y v : bin_arith op x y = Some v -> Z.abs x < 2^31 -> Z.abs y < 2^31 -> Z.abs v < 2^62.
+Proof.
+  unfold bin_arith. intros E Bx By.
+  repeat match type of E with context [match ?c with _ => _ end] => destruct c; try discriminate E end;
+    injection E as <-; try lia;
+    repeat match goal with |- context [if ?c then _ else _] => destruct c end; simpl; lia.
+Qed.
+
+Definition small2 (r : rstate) : Prop := Forall small (r_stack r) /\ Forall small (r_alt r).
+Ltac inv_forall := repeat match goal with H : Forall _ (_ :: _) |- _ => inversion H; subst; clear H end.
+Lemma exec_op_small op rest' r r' : 0 <= op < 256 -> small2 r -> lenZ (r_stack r) < 2^31 ->
+  exec_op op rest' r = Some r' -> small2 r'.
+Proof.
+  intros Hop [S1 S2] S3 E. unfold exec_op in E. destruct r as [st al vf sub nop]. cbn [r_stack r_alt r_vf r_sub r_nop] in *.
+  unfold small2.
+  destruct (ref_kind op) eqn:K; cbn [with_stack r_stack r_alt r_vf r_sub r_nop] in E;
+  try discriminate E;
+  try (repeat match type of E with
+       | context [match ?c with _ => _ end] => destruct c eqn:?; try discriminate E
+       end; injection E as <-; cbn [r_stack r_alt]; inv_forall; split;
+       repeat first [assumption | apply Forall_cons | apply Forall_nil | apply small_of_bool | apply (proj1 (hash_small _))
+                    | apply (proj1 (proj2 (hash_small _))) | apply (proj2 (proj2 (hash_small _))) ]; fail).
+  - (* KSmall *) injection E as <-. cbn [r_stack r_alt]. split; [|assumption]. constructor; [|assumption]. apply small_enc. lia.
+  - (* KBin *) destruct st as [|b [|a st]]; try discriminate E. inv_forall.
+    destruct (ref_num a) as [x|] eqn:Ea; [|discriminate E]. destruct (ref_num b) as [y|] eqn:Eb; [|discriminate E].
+    destruct (bin_arith op x y) as [v|] eqn:Ev; [|discriminate E].
+    pose proof (bin_arith_bound _ _ _ _ Ev (ref_num_bound _ _ Ea) (ref_num_bound _ _ Eb)) as B.
+    destruct (op =? 157); [destruct (v =? 0); [discriminate E|]|]; injection E as <-; cbn [r_stack r_alt]; split; try assumption.
+    constructor; [apply small_enc; exact B|assumption].
+  - (* KUn *) destruct st as [|a st]; try discriminate E. inv_forall.
+    destruct (ref_num a) as [x|] eqn:Ea; [|discriminate E]. destruct (un_arith op x) as [v|] eqn:Ev; [|discriminate E].
+    injection E as <-. cbn [r_stack r_alt]. split; [|assumption].
+    constructor; [apply small_enc; exact (un_arith_bound _ _ _ Ev (ref_num_bound _ _ Ea))|assumption].
+  - (* KMultisig *)
+    destruct st as [|nv r1]; [discriminate E|]. destruct (ref_num nv) as [n|]; [|discriminate E].
+    destruct ((n <? 0) || (n >? 20)); [discriminate E|]. destruct (nop + n >? 201); [discriminate E|].
+    destruct (lenZ r1 <? n + 1); [discriminate E|].
+    destruct (skipn (Z.to_nat n) r1) as [|mv r2] eqn:E2; [discriminate E|].
+    destruct (ref_num mv) as [m|]; [|discriminate E]. destruct ((m <? 0) || (m >? n)); [discriminate E|].
+    destruct (lenZ r2 <? m + 1); [discriminate E|].
+    destruct (skipn (Z.to_nat m) r2) as [|dummy r3] eqn:E3; [discriminate E|].
+    assert (F3 : Forall small r3).
+    { inv_forall. assert (F2 : Forall small (mv :: r2)) by (rewrite <- E2; now apply Forall_skipn). inv_forall.
+      assert (F : Forall small (dummy :: r3)) by (rewrite <- E3; now apply Forall_skipn). now inv_forall. }
+    destruct (f_nulldummy fl && negb (is_nil dummy)); [discriminate E|].
+    destruct verify; [destruct (ms_walk _ _ _); [|discriminate E]|]; injection E as <-; cbn [r_stack r_alt with_stack]; split; try assumption.
+    constructor; [apply small_of_bool|assumption].
+  - (* KDepth *) injection E as <-. cbn [r_stack r_alt]. split; [|assumption]. constructor; [|assumption].
+    apply small_enc. unfold lenZ in *. lia.
+  - (* KPickRoll *) destruct st as [|nv [|x1 st]]; try discriminate E. inv_forall.
+    destruct (ref_num nv) as [n|]; [|discriminate E]. destruct ((n <? 0) || (n >=? lenZ (x1 :: st))); [discriminate E|].
+    destruct (nth_error (x1 :: st) (Z.to_nat n)) as [v|] eqn:En; [|discriminate E].
+    assert (F : Forall small (x1 :: st)) by (constructor; assumption).
+    pose proof (Forall_nth _ _ _ _ F En) as Sv.
+    destruct roll; injection E as <-; cbn [r_stack r_alt]; (split; [|assumption]); constructor; try assumption.
+    apply Forall_app. split; [now apply Forall_firstn|]. now apply (Forall_skipn small (S (Z.to_nat n)) (x1 :: st)).
+  - (* KSize *) destruct st as [|v st]; [discriminate E|]. injection E as <-. cbn [r_stack r_alt]. inv_forall.
+    split; [|assumption]. repeat constructor; try assumption. apply small_enc.
+    match goal with H : small v |- _ => unfold small in H end. unfold lenZ in *. lia.
+Qed.
 End Sim.
